@@ -28,6 +28,8 @@ fn main() {
             None => {
                 let cfg = GenCfg { max_nodes: 25, max_depth: 5, xml_space: 10, ..GenCfg::default() };
                 let mut t = gen_tree(&mut r, &cfg, &pool);
+                // one tree in three: text concentrated on ']' and '>' runs (the "]]>" guard of unescaped_gt, CDATA splitting)
+                if k % 3 == 1 { xh::rtrun::bracket_text(&mut r, &mut t); }
                 declare_missing(&mut r, &mut t, &reg, &pool, 92);
                 (format!("c{}", k), t, vec![])
             }
